@@ -70,18 +70,34 @@ def tier_from_env(default='quick'):
 # SANY / TLC
 
 def _java(main, args, cwd, env=None, timeout=None, jvm=()):
-    cmd = ['java', '-XX:+UseParallelGC', '-Xss64m', *jvm, '-cp', TLA_CP, main, *args]   # deep TLA+ recursion must never depend on JIT/load
+    jvm = list(jvm)
     e = dict(os.environ)
     if env:
         e.update(env)
+    # every JVM gets an explicit heap bound (the JVM default is 1/4 of the RAM *per process*; several checks side by side
+    # were hit by the kernel's OOM killer). Callers that need more pass heap=...
+    if not any(o.startswith('-Xmx') for o in jvm) and '-Xmx' not in e.get('JAVA_TOOL_OPTIONS', ''):
+        jvm.append('-Xmx8g')
+    cmd = ['java', '-XX:+UseParallelGC', '-Xss64m', *jvm, '-cp', TLA_CP, main, *args]   # deep TLA+ recursion must never depend on JIT/load
     t0 = time.time()
-    try:
-        p = subprocess.run(cmd, cwd=cwd, env=e, stdout=subprocess.PIPE, stderr=subprocess.STDOUT,
-                           timeout=timeout, text=True, errors='replace')
-        out, rc, to = p.stdout, p.returncode, False
-    except subprocess.TimeoutExpired as ex:
-        out = ex.stdout if isinstance(ex.stdout, str) else (ex.stdout or b'').decode(errors='replace')
-        rc, to = -9, True
+    for attempt in (1, 2):
+        try:
+            p = subprocess.run(cmd, cwd=cwd, env=e, stdout=subprocess.PIPE, stderr=subprocess.STDOUT,
+                               timeout=timeout, text=True, errors='replace')
+            out, rc, to = p.stdout, p.returncode, False
+        except subprocess.TimeoutExpired as ex:
+            out = ex.stdout if isinstance(ex.stdout, str) else (ex.stdout or b'').decode(errors='replace')
+            rc, to = -9, True
+        # a JVM killed from outside (SIGKILL, e.g. the OOM killer under memory pressure from other processes) says nothing
+        # about model or code: run it once more
+        if not to and rc in (-9, 137) and attempt == 1:
+            time.sleep(5)
+            if '-metadir' in args:          # start the second run from an empty metadir
+                md = args[list(args).index('-metadir') + 1]
+                shutil.rmtree(md, True)
+                os.makedirs(md, exist_ok=True)
+            continue
+        break
     return {'rc': rc, 'out': out, 'timeout': to, 'wall_s': time.time() - t0, 'cmd': ' '.join(cmd)}
 
 
